@@ -666,6 +666,10 @@ def run(ctx):
     legacy(ctx, exe, ytree, d, violate_plain=lambda what, rep, sig=None: ctx.violation(
         sig or {"kind": "legacy", "class": what.split(":")[0][:60]}, "C07 legacy documents: " + what[:400], rep))
 
+    # ---- legacy_versions: generator model of the 2.x tree and loader model on legacy / 3.x / refused documents
+    import c07_legacy
+    c07_legacy.run(ctx, exe, ytree, d)
+
     # ---- solve path
     solve_path(ctx, exe, ytree, d)
     ctx.extra["scenarios"] = n
